@@ -104,12 +104,15 @@ def outcome_tables_ok(env, kind, it, outs, mut_ptrs, n, need_return=True):
     return worst
 
 
-def build_by_type(env, kind, ty, n, st, names, bool_choice):
-    """abstract argument from a type; returns (value, list of &mut table ptrs)"""
+def build_by_type(env, kind, ty, n, st, names, bool_choice, n_dyn=None):
+    """abstract argument from a type; returns (value, list of &mut table ptrs).  n_dyn: the (independent) variable
+    count of a dynamic Lut handed to a StaticLut<N,T> impl (its n is a run-time quantity the type does not bind)"""
     K = env.kinds[kind]
     k = ty["k"]
     if k == "adt" and ty["path"] in (LUT_ADT, SLUT_ADT):
         K2 = env.kinds["dyn" if ty["path"] == LUT_ADT else "static"]
+        if n_dyn is not None and ty["path"] == LUT_ADT and kind == "static":
+            return K2.mk(st, n_dyn, sym_words(n_dyn, names.pop(0))), []
         return K2.mk(st, n, sym_words(n, names.pop(0))), []
     if k == "adt" and ty.get("local"):
         adt = env.facts.adts.get(ty["path"])
@@ -117,13 +120,13 @@ def build_by_type(env, kind, ty, n, st, names, bool_choice):
             raise Undecided("cannot build %s" % ty["s"])
         fs = []
         for f in adt["variants"][0]["fields"]:
-            v, _ = build_by_type(env, kind, f["ty"], n, st, names, bool_choice)
+            v, _ = build_by_type(env, kind, f["ty"], n, st, names, bool_choice, n_dyn)
             fs.append(v)
         return Agg("adt", ty["path"], 0, fs), []
     if k == "adt" and ty["path"] in (api.LUT_PATHS if hasattr(api, "LUT_PATHS") else ()):
         raise Undecided("foreign table type")
     if k == "ref":
-        v, _ = build_by_type(env, kind, ty["t"], n, st, names, bool_choice)
+        v, _ = build_by_type(env, kind, ty["t"], n, st, names, bool_choice, n_dyn)
         p = K.place(st, v)
         muts = [p] if ty["mut"] and isinstance(v, Agg) and v.key == K.adt else []
         if ty["mut"] and isinstance(v, Agg) and v.key != K.adt:
@@ -312,16 +315,21 @@ def run(chk):
             fixed = fixed_n(sty, tr, ins, b["sig"]["output"], K.adt)
             producers += 1
             no_inputs = not ins and kind == "dyn"
-            for n in ([fixed] if fixed is not None else ([None] if no_inputs else range(0, nmax + 1))):
+            # a dynamic Lut handed to a generic StaticLut<N,T> impl carries its own run-time n: every (n_in, N) pair
+            cross = kind == "static" and fixed is None and any(mentions_path(t, LUT_ADT) for t in ins)
+            nlist = [fixed] if fixed is not None else ([None] if no_inputs else range(0, nmax + 1))
+            combos = [(n, nd) for n in nlist for nd in (range(0, nmax + 3) if cross else (None,))]
+            for n, n_dyn in combos:
                 for bool_choice in ((0, 1) if any("Iterator" in t["s"] for t in ins) else (1,)):
-                    key = "%s n=%s%s" % (label, n, " ok=%d" % bool_choice if any("Iterator" in t["s"] for t in ins) else "")
+                    key = "%s n=%s%s%s" % (label, n, " ok=%d" % bool_choice if any("Iterator" in t["s"] for t in ins) else "",
+                                           " n_in=%d" % n_dyn if n_dyn is not None else "")
                     try:
                         it = env.interp()
                         it.join_on_top = True
                         st = State()
                         args, muts, names = [], [], ["a", "b"]
                         for ty in ins:
-                            v, m = build_by_type(env, kind, ty, n, st, names, bool_choice)
+                            v, m = build_by_type(env, kind, ty, n, st, names, bool_choice, n_dyn)
                             args.append(v)
                             muts += m
                         envn = K.env(n) if kind == "static" and n is not None else ({"N": n, "T": table_words(n)} if b["generics"] else {})
@@ -353,6 +361,12 @@ def run(chk):
 
 LUT_ADT = "lut::Lut"
 SLUT_ADT = "static_lut::StaticLut"
+
+
+def mentions_path(t, path):
+    if t.get("path") == path:
+        return True
+    return any(mentions_path(x, path) for x in ([t["t"]] if isinstance(t.get("t"), dict) else []) + list(t.get("args") or []) if isinstance(x, dict))
 
 
 def fixed_n(sty, tr, ins, out, adt):
